@@ -165,12 +165,23 @@ def p_strata(tier):
     ns = {1: [8, 9], 2: [6, 7], 3: [5, 6]}
     out = []
     i = 0
+    if tier == "quick":
+        # every stepper CLASS at least once (first and middle flag variant of the multi-variant classes), the
+        # dimension rotating over the classes
+        by_cls = {}
+        for f in configs.ALL_FAMILIES:
+            by_cls.setdefault(configs.family_info(f)[0], []).append(f)
+        for ci, (cls, fams) in enumerate(by_cls.items()):
+            pick = [fams[0]] + ([fams[len(fams) // 2 + 1]] if len(fams) > 2 else fams[1:2])
+            for j, f in enumerate(pick):
+                dims = configs.family_info(f)[1]
+                D = dims[(ci + j) % len(dims)]
+                out.append(dict(id="%s-D%d" % (f, D), fam=f, D=D, N=ns[D][(ci + j) % 2]))
+        return out
     for f in configs.ALL_FAMILIES:
         cls, dims = configs.family_info(f)
         for D in dims:
             i += 1
-            if tier == "quick" and ((len(dims) == 3 and (i % 6) != 1) or (len(dims) < 3 and i % 2 == 0 and f not in ("NSVort", "KolmVort", "GenVortInj", "NSVel", "KolmVel"))):
-                continue
             out.append(dict(id="%s-D%d" % (f, D), fam=f, D=D, N=ns[D][i % 2]))
     return out
 
